@@ -66,6 +66,12 @@ def run(ctx) -> None:
     from .c02 import check_rows
 
     check_rows(ctx, RW, RW, RW, RW, RW, RW)
+    from .c02 import record_path_from_live_map
+
+    record_path_from_live_map(ctx, RW)
+    from .c02 import failed_add_watch_is_a_failure
+
+    failed_add_watch_is_a_failure(ctx, RW)
     RFS = ctx.rule(
         "C01/threads-survive-vanished-paths",
         "every filesystem call that raises for a missing path, made on the emitter's or the reader's thread, sits inside a handler for OSError (instances shared with C07): a directory may be renamed again right after it arrived, and an OSError escaping the walk of its arrival path ends the thread -- the move or deletion that follows, and everything after it, is never delivered, so the replayed tree keeps a phantom entry",
